@@ -12,7 +12,8 @@ import (
 // objects observed at that moment.
 //   La Lb Lc   load {0,1,2} / {3,1} into main, {4,0} into branch 1
 //   D1 Da Dc   delete the first / all live objects of main, the first of branch 1
-//   W          delete-where on main (keys >= 2)
+//   W Wv       delete-where on main: keys >= 2 / non-key field v in {1,3}
+//   Ld         load {3,0} into main (overlaps La: both span keys 1..3)
 //   C Cc       compact all live objects of main / branch 1
 //   V          vacuum main's tip
 //   B          create branch 1 at main's tip
@@ -50,6 +51,11 @@ func resolveSym(sym string, v *View) (Op, bool) {
 		return Op{Kind: "delete", Branch: 1, IDs: []int{live1[0]}}, true
 	case "W":
 		return Op{Kind: "delwhere", Pred: "k >= 2"}, v.Tips[0] != 0 && !v.Gone[0]
+	case "Wv":
+		// non-key predicate: removes some but not all values of overlapping objects
+		return Op{Kind: "delwhere", Pred: "v == 1 or v == 3"}, v.Tips[0] != 0 && !v.Gone[0]
+	case "Ld":
+		return Op{Kind: "load", Vals: []int{3, 0}}, true
 	case "C":
 		if len(live0) == 0 {
 			return Op{}, false
@@ -87,6 +93,15 @@ func resolveSym(sym string, v *View) (Op, bool) {
 // RunExhaustive runs every sequence of `depth` symbols over `syms` after the fixed `prefix`,
 // on an ascending and a descending pool with a small threshold (search, not proof).
 func RunExhaustive(c *hlib.Ctx, opt Options, prefix, syms []string, depth int) {
+	RunExhaustiveCfg(c, opt, prefix, syms, depth, 9, 0)
+}
+
+// RunExhaustiveCfg: the same with an explicit pool threshold and compiler.Parallelism.
+func RunExhaustiveCfg(c *hlib.Ctx, opt Options, prefix, syms []string, depth int, thresh int64, par int) {
+	WithParallelism(par, func() { runExhaustive(c, opt, prefix, syms, depth, thresh, par) })
+}
+
+func runExhaustive(c *hlib.Ctx, opt Options, prefix, syms []string, depth int, thresh int64, par int) {
 	if c.Replay != nil {
 		return
 	}
@@ -112,7 +127,7 @@ func RunExhaustive(c *hlib.Ctx, opt Options, prefix, syms []string, depth int) {
 	outs := make([]*Outcome, per*len(seqs))
 	hlib.ParallelDo(len(outs), 8, func(i int) {
 		seq := seqs[i/per]
-		cfg := Cfg{Key: "k", Desc: i%2 == 1, Thresh: 9, Stride: 1}
+		cfg := Cfg{Key: "k", Desc: i%2 == 1, Thresh: thresh, Stride: 1}
 		h := &History{Cfg: cfg, Vals: vals, Keys: keys, Profile: "exhaustive:" + strings.Join(seq, ",")}
 		prof := &Profile{Name: h.Profile, Script: seq, Guarded: true}
 		outs[i] = RunHistory(h, prof, rand.New(rand.NewSource(1)), opt)
@@ -120,7 +135,7 @@ func RunExhaustive(c *hlib.Ctx, opt Options, prefix, syms []string, depth int) {
 	var lines []string
 	var idx []int
 	for i, o := range outs {
-		c.Stat("exhaustive")
+		c.Stat(fmt.Sprintf("exhaustive:thresh=%d:par=%d", thresh, par))
 		if line := Report(c, o, opt); line != "" {
 			lines = append(lines, line)
 			idx = append(idx, i)
